@@ -9,7 +9,7 @@ import time
 from .. import build as B
 from .. import engine as E
 from .. import gen as G
-from ..oracle import M, P10, float_to_decimal
+from ..oracle import M, P10, float_to_decimal, f64_bits, f32_bits
 from . import common as C
 
 ID = "C13"
@@ -109,6 +109,19 @@ def constructed(rng):
             for frac in (0, 1, (1 << (mant - 1)) - 1):
                 for sign in (0, 1):
                     out.append("%s %d" % (op, fbits(sign, be, frac, mant, expb)))
+        # floats at (maximum of a primitive type) / 10^k and * 10^k, +-3 ulp: where a narrower fast path whose limit
+        # was computed in floating point (`u64::MAX as f64 / 1e18`) hands over to the general path
+        tobits = f64_bits if mant == 53 else f32_bits
+        for T in G.TYPE_MAXIMA:
+            for k in range(0, 41):
+                cands = [tobits(T, 10 ** k)]
+                if k and k <= 20:
+                    cands.append(tobits(T * 10 ** k, 1))
+                for b in cands:
+                    if (b >> (mant - 1)) & top in (0, top):
+                        continue
+                    for d in range(-3, 4):
+                        out.append("%s %d" % (op, (b + d) | (rng.randrange(2) << (mant - 1 + expb))))
         # the zero cut-off region: values around 0.5e-18
         for e in range(-70, -55):
             for _ in range(8):
